@@ -178,6 +178,8 @@ pub struct SchedStats {
     /// threads that were waiting (spinning) when a fault fired
     pub waiters_at_fault: u64,
     pub choice_points: u64,
+    /// shared-memory event trace (recorded only when requested): (thread, location index in order of first use, kind 0=load 1=store 2=rmw, wrote, old, new)
+    pub trace: Vec<(u8, u16, u8, bool, u64, u64)>,
     /// the threads ran one after another (sequential engine, or the schedule engine without preemption)
     pub sequential: bool,
 }
